@@ -58,6 +58,22 @@ def ripemd160(b):
         raise RuntimeError("ripemd160 unavailable in hashlib")
 
 
+def _s128(v):
+    v &= (1 << 128) - 1
+    return v - (1 << 128) if v >> 127 else v
+
+
+def _tdiv(a, b):
+    q = abs(a) // abs(b)
+    return q if (a < 0) == (b < 0) else -q
+
+
+BV_FUNCS = {
+    "BIGMUL": lambda a, b: _s128(a) * _s128(b),
+    "BIGDIV": lambda a, b: _tdiv(_s128(a), _s128(b)) if _s128(b) != 0 else 0,
+    "BIGREM": lambda a, b: (_s128(a) - _s128(b) * _tdiv(_s128(a), _s128(b))) if _s128(b) != 0 else 0,
+}
+
 REAL_UF = {
     "SHA256D": lambda b: int.from_bytes(sha256d(b), "big"),
     "SHA256": lambda b: int.from_bytes(hashlib.sha256(b).digest(), "big"),
@@ -116,6 +132,9 @@ def evaluate(term, binding, seq_ufs=None):
                 r = z3.BitVecVal(REAL_UF[name](b), x.sort().size())
             elif name in seq_ufs and x.decl().kind() == z3.Z3_OP_UNINTERPRETED:
                 r = bytes_to_seq(seq_ufs[name](seq_value_to_bytes(ch[0])))
+            elif name in BV_FUNCS and x.decl().kind() == z3.Z3_OP_UNINTERPRETED:
+                vals = [z3.simplify(c).as_long() for c in ch]
+                r = z3.BitVecVal(BV_FUNCS[name](*vals) % (1 << x.sort().size()), x.sort().size())
             else:
                 r = z3.simplify(x.decl()(*ch)) if x.decl().kind() != z3.Z3_OP_ITE else None
                 if r is None:
